@@ -3,6 +3,7 @@ project histories / final states into the vocabulary of specs/storage/Storage.tl
 from __future__ import annotations
 
 import itertools
+import json
 
 from happysimulator.components.datastore.kv_store import KVStore
 from happysimulator.components.storage import lsm_tree as _lsm
@@ -59,6 +60,20 @@ def universe(nk, want_fp=False):
             _UNIVERSES[key] = (names, fps)
             return names, fps
         start += 1
+
+
+def universe_with(nk, fps):
+    """Sorted key names whose real bloom false-positive relation is exactly `fps` (None if none found)."""
+    want = sorted(fps)
+    key = (nk, json.dumps(want))
+    if key not in _UNIVERSES:
+        found = None
+        for names in itertools.combinations(sorted(_CAND), nk):
+            if sorted(bloom_fp(list(names))) == want:
+                found = list(names)
+                break
+        _UNIVERSES[key] = found
+    return _UNIVERSES[key]
 
 
 # ---------------------------------------------------------------------------
